@@ -32,6 +32,7 @@ PROP = Property(
                      "(signers in force, parameters for aggregation) and (next signers, parameters for next aggregation)",
                      ["aggregator MithrilEpochService::precompute_epoch_data", "aggregator MithrilEpochService::inform_epoch", "aggregator MithrilEpochService::update_next_signers_with_stake"])],
     replays=[dict(crate="mithril-client", file="mithril-client/src/message.rs", module="replays/c06_client_message.rs", features="rustls"),
+             dict(crate="mithril-common", file="mithril-common/src/protocol/signer_builder.rs", module="replays/c06_signer_builder.rs"),
              dict(crate="mithril-signer", file="mithril-signer/src/services/single_signer.rs", module="replays/c06_signer_single_signer.rs"),
              dict(crate="mithril-aggregator", file="mithril-aggregator/src/services/epoch_service.rs", module="replays/c20_aggregator_epoch_service.rs")],
     assumptions=[
